@@ -60,8 +60,10 @@ def run(chk):
             else:
                 # linear solver: exact solution of its own system; and quadratic approach to the nonlinear solution for small angles.
                 # mode "fixed-geometry" (default solver options): only the aerodynamic angles shrink, sweep/dihedral stay, twist/aL0/deflections are 0;
+                # mode "fixed-geometry-cambered": as the first, but with the sections' zero-lift angles shrinking with the other angles (the sweep
+                # correction of the section lift enters the linear system through them);
                 # mode "all-angles" (generated solver options): sweep, dihedral, twist, zero-lift angles and the state angles all shrink together.
-                mode = "fixed-geometry" if (it // 4) % 2 == 0 else "all-angles"
+                mode = ("fixed-geometry", "all-angles", "fixed-geometry-cambered")[(it // 4) % 3]
                 chk.count("linear-mode=" + mode)
                 SC = (1.0, 0.5, 0.25, 0.125, 0.0625)
                 errs = []
@@ -80,18 +82,18 @@ def run(chk):
                         for w in ac2["wings"].values():
                             if isinstance(w.get("airfoil"), list):
                                 w["airfoil"] = w["airfoil"][0][1]
-                            if mode == "fixed-geometry":
+                            if mode.startswith("fixed-geometry"):
                                 w.pop("twist", None)
                             else:
                                 for key in ("twist", "sweep", "dihedral"):
                                     if key in w:
                                         w[key] = scaled(w[key], scale)
                         for af in ac2["airfoils"].values():
-                            af["aL0"] = 0.0 if mode == "fixed-geometry" else af["aL0"] * scale
+                            af["aL0"] = 0.0 if mode == "fixed-geometry" else af["aL0"] * scale      # (cambered: the zero-lift angle is one of the angles)
                         acs_s.append((nm, ac2, st2, {}))
                     sdl = copy.deepcopy(sd)
                     sdn = copy.deepcopy(sd)
-                    if mode == "fixed-geometry":
+                    if mode.startswith("fixed-geometry"):
                         sdl["solver"] = {"type": "linear"}
                         sdn["solver"] = {"type": "nonlinear"}
                     else:
